@@ -153,7 +153,9 @@ func findClosest(query fastaio.EncodedFastaRecord, measure string, cIn chan fast
 			continue
 		}
 
-		if distance < closest.distance {
+		// (a distance is undefined - NaN - if the two sequences have no resolved site in
+		// common; such a target must not stand in the way of one whose distance is defined)
+		if distance < closest.distance || (math.IsNaN(closest.distance) && !math.IsNaN(distance)) {
 			snps = make([]string, 0)
 			for i, tNuc := range target.Seq {
 				if (query.Seq[i] & tNuc) < 16 {
